@@ -69,6 +69,9 @@ type Config struct {
 
 const abortSignal = -1
 
+// fairStreak: see decide.
+const fairStreak = 3000
+
 type abortPanic struct{}
 
 type thread struct {
@@ -108,6 +111,11 @@ type Sched struct {
 	nextChan int
 	hb       hbState
 	diverged string
+	// selCounts[site][case]: how often each case of a select statement was taken
+	selCounts map[uintptr][]int
+	// fairness among threads: consecutive steps of one thread while others were enabled
+	streakThread *thread
+	streak       int
 }
 
 // S is the scheduler of the execution in progress (nil outside Run).
@@ -125,7 +133,7 @@ func Run(cfg Config, main func()) *Outcome {
 	if cfg.MaxSteps == 0 {
 		cfg.MaxSteps = 20000
 	}
-	s := &Sched{cfg: cfg, finished: make(chan struct{})}
+	s := &Sched{cfg: cfg, finished: make(chan struct{}), selCounts: map[uintptr][]int{}}
 	s.log = 14695981039346656037
 	s.hb.init()
 	S = s
@@ -285,6 +293,22 @@ func (s *Sched) decide() (*thread, int) {
 	}
 	if len(en) == 0 {
 		return nil, 0
+	}
+	// Fairness among threads (Musuvathi/Qadeer, fair stateless model checking, in
+	// its simplest form): a thread that has taken fairStreak consecutive steps
+	// while another thread was enabled all along is demoted for free, so that a
+	// polling loop cannot starve the thread it is waiting for.
+	if len(en) > 1 && s.streakThread == en[0].t {
+		s.streak++
+		if s.streak > fairStreak {
+			s.demote(en[0].t)
+			en = append(en[1:], en[0])
+			s.streak = 0
+			s.streakThread = en[0].t
+		}
+	} else {
+		s.streakThread = en[0].t
+		s.streak = 0
 	}
 	// options: (k delays, j-th alternative of en[k])
 	type option struct{ k, j int }
@@ -478,8 +502,8 @@ func GoNamed(name string, f func()) {
 type startOp struct{}
 
 func (startOp) alts(*thread) []int { return one }
-func (startOp) exec(*thread, int)   {}
-func (startOp) describe() string    { return "start" }
+func (startOp) exec(*thread, int)  {}
+func (startOp) describe() string   { return "start" }
 
 var one = []int{0}
 
